@@ -257,11 +257,13 @@ func (k Keeper) deductUnbondingDelegation(ctx context.Context, delAddr sdk.AccAd
 		return math.Int{}, types.ErrNoUnbondingDelegationEntries
 	}
 	removeAmt := math.ZeroInt()
+	// entries are consumed from the front; removing while ranging would shift the entries still to be read
+	consumed := 0
 	for i, u := range ubd.Entries {
 		if u.Balance.LT(tokens) {
 			tokens = tokens.Sub(u.Balance)
 			removeAmt = removeAmt.Add(u.Balance)
-			ubd.RemoveEntry(int64(i))
+			consumed++
 		} else {
 			u.Balance = u.Balance.Sub(tokens)
 			u.InitialBalance = u.InitialBalance.Sub(tokens)
@@ -271,6 +273,7 @@ func (k Keeper) deductUnbondingDelegation(ctx context.Context, delAddr sdk.AccAd
 			break
 		}
 	}
+	ubd.Entries = ubd.Entries[consumed:]
 
 	if len(ubd.Entries) == 0 {
 		err = k.stakingKeeper.RemoveUnbondingDelegation(ctx, ubd)
